@@ -166,6 +166,9 @@ class NArr(Sym):
             if isinstance(other, float):
                 return NArr(self.shape, zmax(self.kind, FLOAT))
             return NotImplemented
+        if op in ('//', '%') and isinstance(other, NArr):
+            a, b = (other, self) if reflected else (self, other)
+            return ufunc('floor_divide' if op == '//' else 'mod')(ctx, a, b)
         if op == '/':
             if isinstance(other, NArr):
                 return NArr(broadcast(ctx, self.shape, other.shape), zmax(zmax(self.kind, other.kind), FLOAT))
@@ -175,7 +178,7 @@ class NArr(Sym):
 
     def unop(self, ctx, op):
         if op == '-':
-            return NArr(self.shape, self.kind)
+            return ufunc('negative')(ctx, self)
         raise Unsupported('unary %s on an array' % op)
 
     def compare(self, ctx, op, other, reflected):
@@ -585,6 +588,57 @@ def np_not_equal(ctx, a, b, out=None):
     return r
 
 
+# ---- element-wise ufuncs: result KIND table (numpy 2 promotion on the four kinds; `T` = TypeError), cross-checked natively
+T = 'T'
+UFUNC2 = {
+    'greater': [[0] * 4] * 4, 'less': [[0] * 4] * 4, 'equal': [[0] * 4] * 4,
+    'minimum': [[0, 1, 2, 3], [1, 1, 2, 3], [2, 2, 2, 3], [3, 3, 3, 3]], 'maximum': [[0, 1, 2, 3], [1, 1, 2, 3], [2, 2, 2, 3], [3, 3, 3, 3]],
+    'floor_divide': [[1, 1, 2, T], [1, 1, 2, T], [2, 2, 2, T], [T, T, T, T]], 'mod': [[1, 1, 2, T], [1, 1, 2, T], [2, 2, 2, T], [T, T, T, T]],
+    'power': [[1, 1, 2, 3], [1, 1, 2, 3], [2, 2, 2, 3], [3, 3, 3, 3]], 'arctan2': [[2, 2, 2, T], [2, 2, 2, T], [2, 2, 2, T], [T, T, T, T]],
+}
+UFUNC1 = {
+    'negative': [T, 1, 2, 3], 'absolute': [0, 1, 2, 2], 'logical_not': [0, 0, 0, 0], 'real': [0, 1, 2, 2], 'imag': [0, 1, 2, 2], 'conjugate': [1, 1, 2, 3],
+    'sign': [T, 1, 2, 3], 'reciprocal': [1, 1, 2, 3],
+}
+for _n in ('sin', 'cos', 'tan', 'arcsin', 'arccos', 'arctan', 'sinc', 'sinh', 'cosh', 'tanh', 'arctanh', 'exp', 'log'):
+    UFUNC1[_n] = [2, 2, 2, 3]
+
+
+def _ckind(a):
+    k = a.kind if isinstance(a, NArr) else z3.IntVal(INT) if is_intlike(a) and not isinstance(a, bool) else None
+    if k is None or not z3.is_int_value(simp(k)):
+        raise Unsupported('element-wise function on an operand of symbolic kind (the kind table is ground)')
+    return simp(k).as_long()
+
+
+def ufunc(name):
+    def f(ctx, *args, **kw):
+        if kw:
+            raise Unsupported('ufunc keywords')
+        ctx.used_axioms.add('numpy element-wise functions: shape by broadcasting, result kind by the ground table pyvc/npshape.py:UFUNC1/UFUNC2 (TypeError where numpy has no loop)')
+        if name in UFUNC1 and len(args) == 1:
+            k = UFUNC1[name][_ckind(args[0])]
+            sh = args[0].shape
+        elif name in UFUNC2 and len(args) == 2:
+            k = UFUNC2[name][_ckind(args[0])][_ckind(args[1])]
+            sh = broadcast(ctx, args[0].shape if isinstance(args[0], NArr) else (), args[1].shape if isinstance(args[1], NArr) else ())
+        else:
+            raise Unsupported('numpy.%s with %d operands' % (name, len(args)))
+        if k == T:
+            raise PyRaise('TypeError', note='ufunc %s not supported for the input types' % name)
+        return NArr(sh, k)
+    return f
+
+
+def np_array(ctx, a, dtype=None, **kw):
+    if kw:
+        raise Unsupported('numpy.array keywords')
+    ctx.used_axioms.add('numpy.array(a, dtype=t): shape of a, kind of t')
+    if not isinstance(a, NArr):
+        raise Unsupported('numpy.array(%r)' % (a,))
+    return NArr(a.shape, kind_of(dtype) if dtype is not None else a.kind)
+
+
 class _NS:
     def __init__(self, table, what):
         self.table, self.what = table, what
@@ -603,5 +657,6 @@ class NumpyShape(_NS):
             'take': np_take, 'arange': np_arange, 'nonzero': np_nonzero, 'cumsum': np_cumsum, 'searchsorted': np_searchsorted,
             'argsort': np_argsort, 'moveaxis': np_moveaxis, 'choose': np_choose, 'empty': np_empty, 'zeros': np_empty,
             'empty_like': np_empty_like, 'not_equal': np_not_equal,
-            'linalg': _NS({'det': np_det, 'inv': np_inv}, 'numpy.linalg'),
+            'linalg': _NS({'det': np_det, 'inv': np_inv}, 'numpy.linalg'), 'array': np_array,
+            **{n: ufunc(n) for n in list(UFUNC1) + list(UFUNC2)},
         }, 'numpy')
